@@ -87,12 +87,32 @@ def run_case(spec):
             want = [o[1] for o in ops if o[0] == 'key' and o[1] not in CONTAINERS][:12]
 
             def custom(rel):
-                return rel['Ktrace'] * 2.0
+                # long enough for several clean-ups to run while it is evaluated
+                return rel['Ktrace'] * 2.0 + rel['Hamiltonian'] * 0 + rel['s_RicciS'] * 0
+            ident = [k for k in ('alpha', 'Ktrace_in') if False]
+            probes = ['gxx', 'kxy', 'betaz'] if spec['style'] != 'components' else ['gammadown3', 'Kdown3']
             with common.Quiet():
                 try:
-                    atime.over_time(data, fd, vars=want + [{'myvar': custom}],
-                                    estimates=['max'], verbose=False, **{
-                                        k: v for k, v in kw.items() if k != 'verbose'})
+                    tab = atime.over_time(data, fd, vars=[{'myvar': custom}] + probes + want,
+                                          estimates=['max'], verbose=False, **{
+                                              k: v for k, v in kw.items() if k != 'verbose'})
+                    # quantities that are pure re-packagings of the frozen inputs
+                    # must come back as given (no fall-back to the defaults)
+                    ij = {'gxx': ('gammadown3', (0, 0)), 'kxy': ('Kdown3', (0, 1))}
+                    for pk in probes:
+                        for row in range(nsteps):
+                            if pk == 'betaz':
+                                wantv = inputs['betaup3'][2]
+                            elif pk in ij:
+                                wantv = inputs[ij[pk][0]][ij[pk][1]]
+                            elif pk == 'gammadown3':
+                                wantv = np.array([[inputs['g' + ''.join(sorted(a + b))] for b in 'xyz'] for a in 'xyz'])
+                            else:
+                                wantv = np.array([[inputs['k' + ''.join(sorted(a + b))] for b in 'xyz'] for a in 'xyz'])
+                            if not np.array_equal(np.asarray(tab[pk][row]), wantv):
+                                violations.append(("I1 over_time result fell back from the frozen inputs",
+                                                   {"var": pk}))
+                                break
                 except Exception as e:
                     violations.append(("over_time raises " + type(e).__name__,
                                        {"err": repr(e)[:300]}))
